@@ -11,6 +11,7 @@ import (
 	"fmt"
 	"os"
 	"regexp"
+	"runtime"
 	"sort"
 	"strings"
 	"sync"
@@ -451,3 +452,40 @@ func Advance(sec int) {
 		time.Sleep(time.Duration(sec) * time.Second)
 	}
 }
+
+// OutputEvents returns "type|auditId|loggedAs" for every JSON line of the events output ("<torn>"
+// for a line that is not one complete JSON object; the auditId of a UserLogin is a fresh uuid and
+// reported as "-").
+func OutputEvents(path string) []string {
+	data, err := os.ReadFile(path)
+	if err != nil {
+		return nil
+	}
+	var out []string
+	for _, l := range strings.Split(string(data), "\n") {
+		if strings.TrimSpace(l) == "" {
+			continue
+		}
+		var m struct {
+			Type     string `json:"type"`
+			Metadata struct {
+				AuditID string `json:"auditId"`
+			} `json:"metadata"`
+			Subjects map[string]string `json:"subjects"`
+		}
+		if json.Unmarshal([]byte(l), &m) != nil {
+			out = append(out, "<torn>")
+			continue
+		}
+		aid := m.Metadata.AuditID
+		if m.Type == "UserLogin" {
+			aid = "-"
+		}
+		out = append(out, m.Type+"|"+aid+"|"+m.Subjects["loggedAs"])
+	}
+	return out
+}
+
+// KeepOpen keeps a pipe writer referenced (and therefore open) up to this point of the harness:
+// an unreferenced *os.File may be closed by its finalizer, which the reader sees as end-of-stream.
+func KeepOpen(ws ...*FifoWriter) { runtime.KeepAlive(ws) }
